@@ -99,12 +99,15 @@ def generate(ctx):
     # reset-table variant (normal, 4-byte entries, missing -> SpanInfo fallback, short table)
     # ... and with the table's entries NOT directly behind its 0x28-byte header (TableOffset 0x30 / 0x38)
     for rt, gap in [("missing", None), ("short", None), ("normal", None), ("entry4", None), ("normal", 8), ("entry4", 16), ("short", 8), ("entry16", None), ("entry12", 8), ("entry2", None)] * (1 if ctx.tier == "quick" else 12):
-        for _ in range(20):
+        for _ in range(60):
             try:
                 case = S.vgen_case(rng, "chm", "medium", rtable=rt, rtgap=gap)
             except Exception:
                 continue
-            if case["meta"].get("lzx", {}).get("reset_intervals", 0) >= 2: break
+            lzm = case["meta"].get("lzx", {})
+            # at least two reset intervals AND a compressed member that starts beyond the first one (so that decoding
+            # really is set up from a reset-table entry other than 0 when that member is extracted first)
+            if lzm.get("reset_intervals", 0) >= 2 and any(m["section"] == 1 and m["data"] and m["offset"] >= lzm.get("reset_frames", 1) * 32768 for m in case["members"]): break
         else:
             continue
         mem = case["members"]
